@@ -7,8 +7,11 @@ ROOT="$(cd "$(dirname "$0")/.." && pwd)"
 OUT="$ROOT/.build/ocaml/$ID"
 EX="$ROOT/coq/theories/Extract/Extract$ID.v"
 mkdir -p "$OUT"
+# extra hand-written modules: first line of the driver may read  (* deps: a.ml b.ml *)
+DEPS=$(sed -n '1s/^(\* deps: \(.*\) \*)$/\1/p' "$ROOT/ocaml/drv_$ID.ml")
+DEPFILES=""; for d in $DEPS; do DEPFILES="$DEPFILES $ROOT/ocaml/$d"; done
 # inputs: the extraction file, the driver, util, and every compiled model/spec file
-STAMP=$( { cat "$EX" "$ROOT/ocaml/util.ml" "$ROOT/ocaml/drv_$ID.ml"; find "$ROOT/coq/theories" -name '*.v' -newer "$OUT/model_$ID" 2>/dev/null | head -1; } | md5sum | cut -d' ' -f1)
+STAMP=$( { cat "$EX" "$ROOT/ocaml/util.ml" "$ROOT/ocaml/drv_$ID.ml" $DEPFILES; find "$ROOT/coq/theories" -name '*.v' -newer "$OUT/model_$ID" 2>/dev/null | head -1; } | md5sum | cut -d' ' -f1)
 if [ -x "$OUT/model_$ID" ] && [ "$(cat "$OUT/stamp" 2>/dev/null)" = "$STAMP" ] && [ -z "$(find "$ROOT/coq/theories" -name '*.v' -newer "$OUT/model_$ID" | head -1)" ]; then
   exit 0
 fi
@@ -18,7 +21,8 @@ cp "$EX" "Extract$ID.v"
 timeout 900 coqc -Q "$ROOT/coq/theories" Trion "Extract$ID.v" > extract.log 2>&1 || { cat extract.log; exit 1; }
 rm -f "Extract$ID.vo" "Extract$ID.glob" "Extract$ID.vos" "Extract$ID.vok" ".Extract$ID.aux"
 cp "$ROOT/ocaml/util.ml" "$ROOT/ocaml/drv_$ID.ml" .
+for d in $DEPS; do cp "$ROOT/ocaml/$d" .; done
 FILES=$(ocamlfind ocamldep -sort *.ml *.mli)
 ocamlfind ocamlopt -w -a -inline 100 $FILES -o "model_$ID" > build.log 2>&1 || { cat build.log; exit 1; }
-STAMP=$( { cat "$EX" "$ROOT/ocaml/util.ml" "$ROOT/ocaml/drv_$ID.ml"; find "$ROOT/coq/theories" -name '*.v' -newer "$OUT/model_$ID" 2>/dev/null | head -1; } | md5sum | cut -d' ' -f1)
+STAMP=$( { cat "$EX" "$ROOT/ocaml/util.ml" "$ROOT/ocaml/drv_$ID.ml" $DEPFILES; find "$ROOT/coq/theories" -name '*.v' -newer "$OUT/model_$ID" 2>/dev/null | head -1; } | md5sum | cut -d' ' -f1)
 echo "$STAMP" > stamp
